@@ -451,6 +451,11 @@ func c01Judge(L *Layout, out *Outcome, faults []*zsimrt.Fault, events []zsimrt.I
 				if !ft.Sticky || ft.AtSeq > 0 || readOK(events, e.Path) {
 					continue
 				}
+				// a file that some service marks optional and another requires: the probe may stem from the
+				// optional reference while the requiring service is disabled by profiles and never resolved
+				if isOptional(L, e.Path) && layoutHasProfiles(L) {
+					continue
+				}
 			default:
 				continue
 			}
@@ -475,6 +480,27 @@ func c01Judge(L *Layout, out *Outcome, faults []*zsimrt.Fault, events []zsimrt.I
 		}
 	}
 	return "", "", ""
+}
+
+func isOptional(L *Layout, p string) bool {
+	for _, o := range L.Mixed {
+		if o == p {
+			return true
+		}
+	}
+	return false
+}
+
+func layoutHasProfiles(L *Layout) bool {
+	if len(L.Opts.Profiles) > 0 {
+		return true
+	}
+	for f, txt := range L.Files {
+		if (strings.HasSuffix(f, ".yaml") || strings.HasSuffix(f, ".yml")) && strings.Contains(txt, "\"profiles\":") {
+			return true
+		}
+	}
+	return false
 }
 
 func readOK(events []zsimrt.IOEvent, p string) bool {
@@ -572,7 +598,7 @@ func markEnvFiles(L *Layout) {
 		}
 		// referenced anywhere as required?
 		base := path.Base(p)
-		req := false
+		req, opt := false, false
 		for f, txt := range L.Files {
 			if !(strings.HasSuffix(f, ".yaml") || strings.HasSuffix(f, ".yml")) {
 				continue
@@ -605,10 +631,14 @@ func markEnvFiles(L *Layout) {
 					}
 				}
 				if strings.Contains(next, "\"required\": false") || strings.Contains(prevLine, "\"required\": false") {
+					opt = true
 					continue
 				}
 				req = true
 			}
+		}
+		if req && opt {
+			L.Mixed = append(L.Mixed, p)
 		}
 		if req {
 			L.Required = append(L.Required, p)
